@@ -47,7 +47,8 @@ def readyName : Nat → String
 
 def showPublic (e : Ep) : String :=
   "st=" ++ e.state ++ ";" ++
-    showList (fun c : Chan => s!"{showOptNat c.id}/{readyName c.ready}/{c.buffered}") e.chans
+    showList (fun c : Chan => s!"{showOptNat c.id}/{readyName c.ready}/{c.buffered}")
+      (e.chans.filter fun c => !c.silent)
 
 /-- `trace <isServer> <tag> <tsn> <step>|<step>|…`, step = `<now>;<op>;<args…>`. -/
 def runTrace (isServer : Bool) (tag tsn : Nat) (steps : List String) : String :=
@@ -65,7 +66,14 @@ def runTrace (isServer : Bool) (tag tsn : Nat) (steps : List String) : String :=
       | _ => ("bad-step" :: acc).reverse
   "|".intercalate (go (Ep.init isServer tag tsn) [] steps)
 
+def stepsOf (s : String) : List String := if s = "-" then [] else s.splitOn "|"
+
 def handleTop : List String → String
+  | ["pair", tagA, tsnA, stepsA, tagB, tsnB, stepsB] =>
+    match parseNat? tagA, parseNat? tsnA, parseNat? tagB, parseNat? tsnB with
+    | some ta, some na, some tb, some nb =>
+      runTrace false ta na (stepsOf stepsA) ++ "&" ++ runTrace true tb nb (stepsOf stepsB)
+    | _, _, _, _ => "bad-op"
   | ["trace", srv, tag, tsn, steps] =>
     match parseBool? srv, parseNat? tag, parseNat? tsn with
     | some s, some t, some n => runTrace s t n (steps.splitOn "|")
